@@ -20,7 +20,7 @@ def on_exc(w):
 def run(tier, seed):
     from ..families import cross_family
     res = run_r("C11", tier, seed, scenarios(tier), [acc_C11], 2 if tier == "quick" else 3, on_exc, WIT, RULE)
-    run_r("C11", tier, seed, cross_family(tier), [acc_C11], 1 if tier == "quick" else 2, on_exc, [], RULE, res=res, label="cross_family", split=0)
+    run_r("C11", tier, seed, cross_family(tier), [acc_C11], 1, on_exc, [], RULE, res=res, label="cross_family", split=0)
     return res
 
 
